@@ -555,7 +555,8 @@ func runCase(c Case) *vt.Outcome {
 	var victim resolved
 	if c.Victim.Kind != "init" {
 		var oe *obsError
-		before, _, _, oe = observe(ctx, base, mode)
+		// observe a copy: reading persists derived snapshot files, and the victim must find the store as the prefix left it
+		before, _, _, oe = observe(ctx, base.Clone(), mode)
 		if oe != nil {
 			o.Fail = fail("C17/setup-unreadable", "the fault-free prefix left an unreadable lake: %v", oe)
 			return o
